@@ -374,6 +374,16 @@ func C13(run *core.Run) {
 			run.Violate(fmt.Sprintf("websocket:stalled peer not dropped (ping=%v)", ping), detail, map[string]any{"send_timeout_ms": 300, "ping": ping.String()})
 		}
 	}
+	// the same for the relay's own replies: the handler is silent, the peer never reads but keeps sending
+	// frames the gate refuses (each is answered with a NOTICE); the blocked write is then a NOTICE
+	for _, ping := range []time.Duration{0, 10 * time.Second} {
+		ended, detail := wsStalledPeerRejected(300*time.Millisecond, ping)
+		run.Add("websocket_runs", 1)
+		distinct.Add(fmt.Sprint("ws-notice", ping))
+		if !ended {
+			run.Violate(fmt.Sprintf("websocket:stalled peer not dropped while the relay answers refused frames (ping=%v)", ping), detail, map[string]any{"send_timeout_ms": 300, "ping": ping.String()})
+		}
+	}
 	run.Set("rule", "Session.tla models every goroutine as a stage (wait for a message or the context; hand it on with a select on the context) and the compositions as stage graphs; TLC proves Termination ((cancelled or closed) leads to all stages done, under weak fairness) for middleware(handler), router, merge of two children and middleware(merge), with a draining and with a stalled peer, ended by cancel and by closing the inbound channel, and shows that a stage sending without the context violates it. On the real code every composition (default, cache, router, SQLite, merge of 2 and of 3, bare and under middleware stacks incl. Prometheus + unique filters) runs a 9-message history cut at every position, ended by cancel (draining and stalled peer) or by closing recv (draining): ServeNostr returns within 2 s, the goroutines created by mocrelay are gone, the router registry is empty, the gauges are back; each observation is one line judged by TLC (SessionTrace). WebSocket: a client that never reads, a handler emitting 64 KiB messages, SendTimeout 300 ms, ping 0 / 50 ms / 10 s: the handler's context must end within 5 s. distinct_nontrivial = distinct (composition, cut, ending, peer) cases")
 	run.Set("evaluations", run.Get("sessions")+run.Get("websocket_runs"))
 	run.Set("distinct_nontrivial", distinct.Len())
@@ -620,4 +630,57 @@ func sqliteBusyCut(conc *abs.Conc, round int) (map[string]any, error) {
 	return map[string]any{"op": "session", "comp": "sqlite (database busy)", "cut": 0, "fed": fed, "ending": "cancel", "peer": "draining",
 		"returned": returned, "return_ms": retIn.Milliseconds(), "goroutines_left": left, "registry_conns": 0, "registry_subs": 0,
 		"gauge_conn_delta": 0, "gauge_req_delta": 0, "shape": "sqlite: session cancelled while the insert queue is full"}, nil
+}
+
+// wsStalledPeerRejected: the client never reads and floods the relay with frames that the gate refuses
+// (a REQ with an invalid kind and a long subscription id, echoed in the NOTICE); the handler emits nothing.
+func wsStalledPeerRejected(sendTimeout, ping time.Duration) (bool, string) {
+	ended := make(chan struct{})
+	var once sync.Once
+	h := mocrelay.HandlerFunc(func(ctx context.Context, send chan<- mocrelay.ServerMsg, recv <-chan mocrelay.ClientMsg) error {
+		defer once.Do(func() { close(ended) })
+		for {
+			select {
+			case <-ctx.Done():
+				return ctx.Err()
+			case _, ok := <-recv:
+				if !ok {
+					return mocrelay.ErrRecvClosed
+				}
+			}
+		}
+	})
+	opt := mocrelay.NewDefaultRelayOption()
+	opt.SendTimeout = sendTimeout
+	opt.PingDuration = ping
+	opt.RecvRateLimitRate = 1e9
+	opt.RecvRateLimitBurst = 1 << 30
+	srv := httptest.NewServer(mocrelay.NewRelay(h, opt))
+	defer srv.Close()
+	ctx, cancel := context.WithTimeout(context.Background(), 30*time.Second)
+	defer cancel()
+	conn, _, err := websocket.Dial(ctx, "ws"+strings.TrimPrefix(srv.URL, "http"), nil)
+	if err != nil {
+		return false, "dial: " + err.Error()
+	}
+	defer conn.CloseNow()
+	frame := []byte(`["REQ","` + strings.Repeat("s", 16*1024) + `",{"kinds":[-1]}]`)
+	start := time.Now()
+	sent := 0
+	go func() {
+		// (no deadline on the client's writes: a write that is given up closes the connection, and it is
+		// the relay that has to end this session)
+		for ctx.Err() == nil {
+			if err := conn.Write(ctx, websocket.MessageText, frame); err != nil {
+				return
+			}
+			sent++
+		}
+	}()
+	select {
+	case <-ended:
+		return true, ""
+	case <-time.After(12 * time.Second):
+		return false, fmt.Sprintf("SendTimeout %v, PingDuration %v: the session was still running %v after the peer stopped reading (%d refused frames sent)", sendTimeout, ping, time.Since(start).Round(time.Millisecond), sent)
+	}
 }
